@@ -6,9 +6,6 @@
 // Needs base.rs and strings.rs (digits, left_pad).
 
 // -- R8: std functions without a vstd specification
-pub assume_specification [i128::abs](x: i128) -> (r: i128)
-    requires x > i128::MIN          // i128::MIN.abs() overflows (panic in debug, MIN in release)
-    ensures r == abs_int(x as int);
 
 pub assume_specification<T: Ord> [core::cmp::min](a: T, b: T) -> (r: T)
     ensures <T as vstd::std_specs::cmp::OrdSpec>::obeys_cmp_spec() ==>
